@@ -16,7 +16,7 @@ RULE = ("incremental search: states = distinct (implementation snapshot, automat
         "next frame from {PING x 5 lengths, PONG, T0, T1, B1, C0, C1}; burst enumeration: every legal sequence up to a depth delivered "
         "as one segment; plus every ping length 0..125 at three positions; distinct_nontrivial = states + distinct burst sequences + lengths")
 ASSUMPTIONS = ["the transport accepts each write whole (short writes are C12's subject)",
-               "ping payload contents are ramps; lengths 0..125 all covered"]
+               "ping payload contents are ramps, all-zero and all-0xFF bytes; lengths 0..125 all covered"]
 
 PINGLENS = [0, 1, 2, 124, 125]
 VARIANTS = [("recv", False), ("recv_data", False), ("recv_data", True), ("recv_data_frame", False), ("recv_data_frame", True)]
@@ -67,9 +67,9 @@ def call(ws, vi):
             return ("ret", ws.recv())
         if api == "recv_data":
             o, d = ws.recv_data(cf)
-            return ("ret", (o, bytes(d)))
+            return ("ret", (o, env.B(d)))
         o, f = ws.recv_data_frame(cf)
-        return ("ret", (o, bytes(f.data)))
+        return ("ret", (o, env.B(f.data)))
     except lib.websocket.WebSocketTimeoutException:
         return ("timeout",)
     except lib.websocket.WebSocketProtocolException:
@@ -169,10 +169,10 @@ def burst_case(seqidx, vi):
     check_log(sock, frames, label, vi)
 
 
-def lengths_case(n, vi):
+def lengths_case(n, vi, content="ramp"):
     lib.reset_globals()
     env.install_urandom("counter")
-    p = bytes((i * 3 + n) % 256 for i in range(n))
+    p = bytes((i * 3 + n) % 256 for i in range(n)) if content == "ramp" else (b"\x00" * n if content == "zeros" else b"\xff" * n)
     seqf = [(R.PING, 1, p), (R.TEXT, 0, b"a"), (R.PING, 1, p[::-1]), (R.CONT, 1, b"b"), (R.PING, 1, p), (R.TEXT, 1, b"c"), (R.PING, 1, p)]
     stream = b""
     frames = []
@@ -187,7 +187,7 @@ def lengths_case(n, vi):
         if r[0] != "ret":
             break
         got.append(r[1])
-    check_log(sock, frames, "ping length %d at three positions" % n, vi)
+    check_log(sock, frames, "ping length %d (%s bytes) at three positions" % (n, content), vi)
     api, cf = VARIANTS[vi]
     data = [g for g in got if not (isinstance(g, tuple) and g[0] == R.PING)]
     want = ["ab", "c"] if api == "recv" else [(R.TEXT, b"ab"), (R.TEXT, b"c")]
@@ -238,18 +238,19 @@ def run_task(desc):
             res["samples"].append({"burst_first": SYMS[desc["first"]][0], "sequences": n})
     else:
         for n in range(126):
-            try:
-                lengths_case(n, desc["v"])
-            except Violation as v:
-                runner.add_failure(res, v.sig, v.what, {"case": "lengths", "n": n, "v": desc["v"]})
-            except Exception as e:
-                v = as_violation(e)
-                if v is None:
-                    raise
-                runner.add_failure(res, v.sig, v.what, {"case": "lengths", "n": n, "v": desc["v"]})
-            res["execs"] += 1
-            res["complete"] += 1
-            res["distinct"] += 1
+            for content in ("ramp", "zeros", "ff"):
+                try:
+                    lengths_case(n, desc["v"], content)
+                except Violation as v:
+                    runner.add_failure(res, v.sig, v.what, {"case": "lengths", "n": n, "v": desc["v"], "content": content})
+                except Exception as e:
+                    v = as_violation(e)
+                    if v is None:
+                        raise
+                    runner.add_failure(res, v.sig, v.what, {"case": "lengths", "n": n, "v": desc["v"], "content": content})
+                res["execs"] += 1
+                res["complete"] += 1
+                res["distinct"] += 1
     return res
 
 
@@ -261,7 +262,7 @@ def replay(rep):
         if rep["case"] == "burst":
             burst_case(tuple(rep["seq"]), rep["v"])
         else:
-            lengths_case(rep["n"], rep["v"])
+            lengths_case(rep["n"], rep["v"], rep.get("content", "ramp"))
     except Violation as v:
         return {"sig": v.sig, "what": v.what}
     return None
